@@ -4,6 +4,8 @@ C06 — helper lemmas: the bracket layer round trip, entry decoders, statement s
 import CBV.Model.C06
 import Std.Data.String.ToNat
 
+set_option linter.unusedSectionVars false
+
 namespace CBV.C06
 
 /-! ### bracket layer -/
